@@ -1367,7 +1367,8 @@ def add_invariant_checks(cls: ClassT) -> None:
         else:
             wrapper = _decorate_with_invariants(func=init_func, is_init=True)
             if wrapper is not init_func:
-                setattr(cls, init_func.__name__, wrapper)
+                # NOTE: The name of the function need not be ``__init__`` (*e.g.*, ``__init__ = _some_helper``).
+                setattr(cls, "__init__", wrapper)
 
     for name, func in names_funcs:
         wrapper = _decorate_with_invariants(func=func, is_init=False)
